@@ -1,17 +1,30 @@
 import AkVerif.Model.Sticky
 import AkVerif.Props.C11
-import AkVerif.Lemmas.StickyFix
+import AkVerif.Lemmas.StickyInit
 /-!
 # C15 — sticky assignor keeps assignments that need not move  (PARTIAL)
 
-The sticky assignor's algorithm is not modelled (yet): what is proved here is
-(1) what a `true` verdict of the three executable statements means (`…_sound`), and
-(2) that the previous assignment survives the real user-data encoding
-    (`StickyAssignorUserDataV1`, an instance of the generic wire round trip of C11, read from the
-    regenerated schema table).
-The check evaluates the statements on the library's consecutive results for every explored input.
-Missing for a full proof: `∀ input, unchangedB (sticky prev-round) (sticky next-round)` etc. for a
-Lean port of `StickyAssignmentExecutor`.
+About the Lean port of `StickyAssignmentExecutor` (`Model/StickyAlg.lean`, tied to the code by
+byte-identical T-diff on every explored round):
+
+* `c15_identical_subscriptions_keep` — clauses (a) and (b) when all members subscribe to the same
+  topics and no member is new: for every cluster layout, every number of members and partitions,
+  every oracle and every fuel ≥ 1 the assignor returns normally and every member keeps every
+  partition of its previous assignment; partitions of departed members and new partitions are
+  handed out without moving anything between members.  Hypotheses (`GoodPrev`, sizes within one)
+  are what a valid balanced previous round leaves behind; `c15_keep_hypotheses_decidable` makes
+  them a test (`keepHyp`) the check runs on every explored second round.
+* `c15_keeps_when_fill_balanced_partial`, `c15_fixpoint_partial` — arbitrary subscriptions,
+  conditional on the code's own `_is_balanced` accepting the assignment once the unassigned
+  partitions are handed out.
+* what a `true` verdict of the three executable statements means (`…_sound`), and that the
+  previous assignment survives the real user-data encoding (instance of C11's round trip on the
+  regenerated schema).
+
+Missing for a full proof: clause (c) (new members: nothing moves between old members — depends on
+the order in which `_perform_reassignments` visits partitions) and clause (a) for non-identical
+subscriptions without the `_is_balanced` hypothesis; for these the executable statements are
+evaluated on the library's consecutive results for every explored input.
 -/
 namespace AkVerif.Sticky
 open AkVerif.Assign AkVerif.Wire
@@ -81,6 +94,45 @@ theorem c15_fixpoint_partial (fuel : Nat) (s : StickyAlg.St)
     ∃ s', StickyAlg.balance (fuel + 1) s = some s' ∧ s'.failed = none ∧
       ∀ x, StickyAlg.curOf s' x = StickyAlg.curOf s x :=
   StickyAlg.balance_fixpoint fuel s hc2p hne hun hf hb
+
+/-- **nothing moves when the filled assignment is balanced** (arbitrary subscriptions): if the
+    code's own `_is_balanced` accepts the assignment once the unassigned partitions are handed out
+    (and the consumers that cannot take part are set aside), `balance` returns with every consumer's
+    previous list as a prefix of its new list — partitions are only added, none moves -/
+theorem c15_keeps_when_fill_balanced_partial (fuel : Nat) (s : StickyAlg.St)
+    (hc2p : (StickyAlg.keysOf s.c2p).Nodup) (hne : s.cur ≠ []) (hf : s.failed = none)
+    (hb : StickyAlg.isBalanced (StickyAlg.setAsideFixed
+      (StickyAlg.assignUnassigned { s with subs := s.cur.map (·.1) })).1 = true) :
+    ∃ s', StickyAlg.balance (fuel + 1) s = some s' ∧ s'.failed = none ∧
+      ∀ x, StickyAlg.curOf s x <+: StickyAlg.curOf s' x := by
+  obtain ⟨s', h1, h2, _, h3⟩ := StickyAlg.balance_keeps_when_fill_balanced fuel s hc2p hne hf hb
+  exact ⟨s', h1, h2, h3⟩
+
+/-- **clauses (a) and (b) for identical subscriptions, no new member** — the whole port, from the
+    members' user data to the returned assignment: every member keeps every partition it held -/
+theorem c15_identical_subscriptions_keep (fuel : Nat) (parts : List (Topic × List Nat))
+    (members : List StickyAlg.MemberIn) (oracle : List StickyAlg.TP)
+    (G : StickyAlg.GoodPrev parts members) (hne : members ≠ [])
+    (hsame : ∀ a ∈ members, ∀ b ∈ members, a.subs = b.subs)
+    (hw : ∀ a ∈ members, ∀ b ∈ members, a.prev.length ≤ b.prev.length + 1) :
+    ∃ out left, StickyAlg.assign (fuel + 1) parts members oracle = .ok out left ∧
+      ∀ m ∈ members, ∀ p ∈ m.prev, ∃ items ps, (m.id, items) ∈ out ∧ (p.1, ps) ∈ items ∧ p.2 ∈ ps :=
+  StickyAlg.assign_keeps_identical fuel parts members oracle G hne hsame hw
+
+/-- the hypotheses of `c15_identical_subscriptions_keep` are decided by `keepHyp` (run by the check
+    on every explored second round; evidence: `keep_hypothesis_held`) -/
+theorem c15_keep_hypotheses_decidable (fuel : Nat) (parts : List (Topic × List Nat))
+    (members : List StickyAlg.MemberIn) (oracle : List StickyAlg.TP)
+    (h : StickyAlg.keepHyp parts members = true) :
+    ∃ out left, StickyAlg.assign (fuel + 1) parts members oracle = .ok out left ∧
+      ∀ m ∈ members, ∀ p ∈ m.prev, ∃ items ps, (m.id, items) ∈ out ∧ (p.1, ps) ∈ items ∧ p.2 ∈ ps := by
+  obtain ⟨h1, h2, h3, h4⟩ := StickyAlg.keepHyp_sound parts members h
+  exact StickyAlg.assign_keeps_identical fuel parts members oracle h2 h1 h3 h4
+
+/-- non-vacuity: three members held 0,1 | 2 | 3 of a four-partition topic, the third left -/
+example : StickyAlg.keepHyp [(0, [0, 1, 2, 3])]
+    [{ id := 0, subs := [0], prev := [(0, 0), (0, 1)] }, { id := 1, subs := [0], prev := [(0, 2)] }] = true := by
+  decide
 
 example : survivorsKeepB [(0, [(0, [0, 1])]), (1, [(0, [2])])] [(0, [(0, [0, 1, 2])])] [0] = true := by
   decide
